@@ -20,8 +20,9 @@ VARIABLES req,       \* id -> [kind, fd, buflen, min, pos, state, spos0, last]
           rpos, wpos,\* fd -> bytes delivered by recv / accepted by send so far
           rxq, txq, axq,   \* fd -> remaining scripted answers [kind, n]
           conn,      \* the connection request in progress (a record), or NoConn
-          clock, incb
-vars == <<l, req, rdr, wtr, rpos, wpos, rxq, txq, axq, conn, clock, incb>>
+          clock, incb,
+          fatal      \* C14: the loop reported a refused allocation; requests that were being re-armed may be dead (cancel still releases them)
+vars == <<l, req, rdr, wtr, rpos, wpos, rxq, txq, axq, conn, clock, incb, fatal>>
 
 NoReq == [kind |-> "none", fd |-> 0, buflen |-> 0, min |-> 0, pos |-> 0, state |-> "none", spos0 |-> 0, last |-> "NONE"]
 NoConn == [id |-> 0, plan |-> <<>>, idx |-> 0, cur |-> -1, open |-> {}, timeo |-> -1, start |-> <<0, 0>>, inprog |-> FALSE, result |-> "none"]
@@ -35,14 +36,14 @@ TxByte(r, o) == (o * 11 + r * 5 + 3) % 251
 Init0 == /\ req = [i \in Reqs |-> NoReq] /\ rdr = [f \in FDS |-> 0] /\ wtr = [f \in FDS |-> 0]
          /\ rpos = [f \in FDS |-> 0] /\ wpos = [f \in FDS |-> 0]
          /\ rxq = [f \in FDS |-> <<>>] /\ txq = [f \in FDS |-> <<>>] /\ axq = [f \in FDS |-> <<>>]
-         /\ conn = NoConn /\ clock = <<1, 0>> /\ incb = 0
+         /\ conn = NoConn /\ clock = <<1, 0>> /\ incb = 0 /\ fatal = FALSE
 Init == l = 1 /\ Init0
 TReset == /\ IsEvent("reset")
           /\ req' = [i \in Reqs |-> NoReq] /\ rdr' = [f \in FDS |-> 0] /\ wtr' = [f \in FDS |-> 0]
           /\ rpos' = [f \in FDS |-> 0] /\ wpos' = [f \in FDS |-> 0]
           /\ rxq' = [f \in FDS |-> <<>>] /\ txq' = [f \in FDS |-> <<>>] /\ axq' = [f \in FDS |-> <<>>]
-          /\ conn' = NoConn /\ clock' = <<1, 0>> /\ incb' = 0
-Keep(v) == UNCHANGED v
+          /\ conn' = NoConn /\ clock' = <<1, 0>> /\ incb' = 0 /\ fatal' = FALSE
+Keep(v) == UNCHANGED v /\ UNCHANGED fatal
 
 \* ---- environment script ----
 Push(q) == [q EXCEPT ![Ev.fd] = Append(@, [kind |-> Ev.kind, n |-> Ev.n])]
@@ -65,7 +66,11 @@ TTick == /\ IsEvent("tick") /\ TLeq(clock, Clk("c")) /\ clock' = Clk("c")
          /\ Keep(<<req, rdr, wtr, rpos, wpos, rxq, txq, axq, conn, incb>>)
 TRunCall == IsEvent("run_call") /\ incb = 0 /\ Keep(<<req, rdr, wtr, rpos, wpos, rxq, txq, axq, conn, clock, incb>>)
 \* the loop reports failure only if an allocation was refused (C14) or a callback said so
-TRunRet == IsEvent("run_ret") /\ incb = 0 /\ Keep(<<req, rdr, wtr, rpos, wpos, rxq, txq, axq, conn, clock, incb>>)
+TRunRet == /\ IsEvent("run_ret") /\ incb = 0
+           /\ IF conn.result = "fatal" /\ conn.id # 0
+              THEN Ev.rc # 0 /\ Ev.inj > 0 /\ conn.open = {} /\ req' = [req EXCEPT ![conn.id].state = "failed"] /\ conn' = NoConn
+              ELSE UNCHANGED <<req, conn>>
+           /\ UNCHANGED <<rdr, wtr, rpos, wpos, rxq, txq, axq, clock, incb>> /\ fatal' = (fatal \/ (Ev.rc # 0 /\ Ev.inj > 0))
 TEnv == IsEvent("env") /\ Keep(<<req, rdr, wtr, rpos, wpos, rxq, txq, axq, conn, clock, incb>>)
 
 \* ---- read / write requests ----
@@ -175,6 +180,9 @@ TClose ==
         /\ conn' = [conn EXCEPT !.open = @ \ {Ev.fd}, !.cur = -1, !.idx = @ + 1, !.inprog = FALSE, !.result = "none"]
      \/ /\ Ev.fd = conn.cur /\ l + 1 <= Len(Tr) /\ Tr[l + 1].e = "cancel"                                        \* network_connect_cancel closes it
         /\ conn' = [conn EXCEPT !.open = @ \ {Ev.fd}, !.cur = -1, !.inprog = FALSE]
+     \/ \* C14: a refused allocation while (re)starting an attempt is fatal for the request: socket closed, failure reported, no callback
+        /\ Ev.fd = conn.cur /\ l + 1 <= Len(Tr) /\ Tr[l + 1].e \in {"run_ret", "req_connect_ret"} /\ Tr[l + 1].inj > 0
+        /\ conn' = [conn EXCEPT !.open = @ \ {Ev.fd}, !.cur = -1, !.inprog = FALSE, !.result = "fatal"]
   /\ Keep(<<req, rdr, wtr, rpos, wpos, rxq, txq, axq, clock, incb>>)
 TReqConnectRet ==
   /\ IsEvent("req_connect_ret") /\ conn.id = Ev.req
@@ -228,7 +236,7 @@ Starved(i) == LET r == req[i] IN
     [] r.kind = "c" -> conn.id = i /\ conn.inprog /\ conn.timeo < 0 /\ PlanKind(conn.idx) = "N"
     [] OTHER -> FALSE
 TEnd == /\ IsEvent("end") /\ incb = 0
-        /\ \A i \in Reqs : req[i].state = "pending" => (\E k \in 1..Len(Ev.pending) : Ev.pending[k] = i) /\ Starved(i)
+        /\ \A i \in Reqs : req[i].state = "pending" => (\E k \in 1..Len(Ev.pending) : Ev.pending[k] = i) /\ (Starved(i) \/ fatal)
         /\ \A i \in Reqs : req[i].state = "starting" => FALSE
         /\ Keep(<<req, rdr, wtr, rpos, wpos, rxq, txq, axq, conn, clock, incb>>)
 TQuiescent == IsEvent("quiescent") /\ Keep(<<req, rdr, wtr, rpos, wpos, rxq, txq, axq, conn, clock, incb>>)
